@@ -225,6 +225,8 @@ def run(facts, R):
     format_code_flow(facts, R)
     emission(facts, R)
     length_formula(facts, R)
+    message_literals_well_formed(facts, R)
+    vector_writes_restamp(facts, R)
     # the read side of the round trip: a frame read from a stream is exactly the frame (shared with C02)
     from rules import C02 as _c02
     cx = _c02.Ctx(facts, R)
@@ -802,9 +804,15 @@ def length_formula(facts, R):
             ok = (is_call(_unconv(v), "len") and (txt.rstrip(")").endswith(".%s" % what) or txt.rstrip(")").endswith("(%s" % what))) or (fld == "body_length" and txt == "body_len")
             k += 1
             R.check(ok, "length-formula", b.path, "%s = len(%s)" % (fld, what), "%s := %s" % (fld, txt), st.get("span"), txt)
+        lit_fns = {b_.path for b_, i_, _, _ in struct_constructions(facts, "message::Message") if i_ in b_.live_blocks()}
         for w in field_writes(facts, "header::Header", fld, include_borrows=False):
             b = w["body"]
             if b.path == "header::Header::decode" or w["kind"] != "store":
+                continue
+            if b.path in lit_fns and getattr(b, "changed", False):
+                # the header goes into a Message literal of this function: judged there against the very vectors it is paired
+                # with (message_literals_well_formed), whatever the stored expression looks like
+                k += 1
                 continue
             s = Sym(b)
             v = s.rvalue(w["rv"])
@@ -831,6 +839,107 @@ def length_formula(facts, R):
             k += 1
             R.check(ok, "length-formula", b.path, "%s = len(%s)" % (fld, what), "%s := %s" % (fld, txt), w["span"], txt)
         R.floor("length-formula", k, 3 if fld == "query_length" else 2, "stores to Header." + fld)
+
+
+def _moved_from(b, op, depth=0):
+    """the place an owned value was moved out of (`_9 = move _4; Message { body: move _9 }` -> _4)"""
+    p = op_place(op)
+    while p is not None and not p["p"] and depth < 8:
+        defs = b.defs_of(p["l"])
+        if len(defs) == 1 and defs[0][0] == "assign" and "use" in defs[0][3] and op_place(defs[0][3]["use"]) is not None and not b.debug_name(p["l"]):
+            p = op_place(defs[0][3]["use"])
+            depth += 1
+        else:
+            break
+    return p
+
+
+def message_literals_well_formed(facts, R):
+    """Every `Message { header, query, body }` built in non-test code is well formed where it is built: either a
+    field-for-field copy of one source (Clone, MessageView::to_message), the validated literal of Message::new (C02's accept
+    guards, shared), or a literal whose header provably has query_length == len(query), body_length == len(body) and
+    length == 48 + both for the very vectors that go into it (affine forms at the literal).  All emission routes, the
+    in-place writer and the async/WebSocket servers rely on it; a constructor that fills a Message some other way (a response
+    built on a copy of the request header, a body edited after its length was taken) makes the routes disagree."""
+    n = 0
+    for b, i, j, st in struct_constructions(facts, "message::Message"):
+        if i not in b.live_blocks():
+            continue
+        n += 1
+        rv = st["rv"]
+        ops = dict(zip(rv["fields"], rv["ops"]))
+        if not all(k in ops for k in ("header", "query", "body")):
+            R.bad("length-formula", b.path, "Message literal is well formed", "a Message literal without header/query/body operands (..base update?)", st.get("span"))
+            continue
+        if b.path == "message::Message::new":
+            R.ok("length-formula", b.path, "Message literal is well formed", st.get("span"), "validated literal (accept-guards)")
+            continue
+        s = Sym(b)
+        hv = s.op(ops["header"])
+
+        def _strip(e):
+            while e[0] == "call" and len(e[2]) == 1 and e[1].rsplit("::", 1)[-1] in ("to_vec", "clone", "to_owned", "deref", "as_ref", "borrow", "into", "as_slice"):
+                e = e[2][0]
+            return e
+
+        def _mut_borrowed(op):
+            p_ = _moved_from(b, op)
+            if p_ is None or p_["p"]:
+                return False
+            return any(s_["rv"].get("ref", {}).get("l") == p_["l"] and s_["rv"].get("mut") for _, _, s_ in b.assigns() if "ref" in s_["rv"])
+        aff = Affine(b, facts)
+        stt = aff.state_at((i, j))
+        hp = _moved_from(b, ops["header"])
+        det = []
+        ok = True
+        forms = {}
+        for fld, src in (("query_length", "query"), ("body_length", "body")):
+            ff = aff.field_form(stt, hp, fld) if hp is not None else None
+            vp = _moved_from(b, ops[src])
+            vf = aff.len_form(stt, {"move": vp}) if vp is not None else aff.len_form(stt, ops[src])
+            if ff is None:
+                # the field was not stored here: the header came from somewhere whole - then the vector must come from the same
+                # place, unmodified
+                vv = _strip(s.op(ops[src]))
+                same = hv[0] == "field" and hv[2] == "header" and vv[0] == "field" and vv[2] == src and vv[1] == hv[1] and not _mut_borrowed(ops[src])
+                ok = ok and same
+                det.append("%s inherited from %s, %s is %s%s" % (fld, render(hv)[:40], src, render(vv)[:40], " (modified through &mut)" if _mut_borrowed(ops[src]) else ""))
+            else:
+                forms[fld] = ff
+                ok = ok and ff == vf
+                det.append("%s = %s, len(%s) = %s" % (fld, ff, src, vf))
+        lf = aff.field_form(stt, hp, "length") if hp is not None else None
+        if lf is not None or forms:
+            want = Form.const(48)
+            for fld in ("query_length", "body_length"):
+                want = want.add(forms.get(fld) or Form.atom(("sym", render(hv) + "." + fld)))
+            got = lf if lf is not None else Form.atom(("sym", render(hv) + ".length"))
+            ok = ok and got == want
+            det.append("length = %s, 48 + q + b = %s" % (got, want))
+        R.check(ok, "length-formula", b.path, "Message literal is well formed",
+                "%s builds a Message whose header lengths are not provably those of its query and body vectors: %s" % (b.path.rsplit("::", 1)[-1], "; ".join(det)),
+                st.get("span"), "; ".join(det)[:200])
+    R.floor("length-formula", n, 4, "Message literals")
+
+
+def vector_writes_restamp(facts, R):
+    """After construction a Message's query / body is written (stored or mutably borrowed) only by functions that restamp the
+    header afterwards: on every path from the write to the function's return a store to header.<field>_length follows (its
+    value is judged by the length rules).  A body edited in place behind a header that still says the old length is emitted
+    with the stale length by every route that does not recompute it."""
+    n = 0
+    for fld in ("query", "body"):
+        for w in field_writes(facts, "message::Message", fld):
+            b = w["body"]
+            if w["kind"] == "whole":
+                continue
+            n += 1
+            restamps = [(x["bb"], x["idx"]) for x in field_writes(facts, "header::Header", fld + "_length", include_borrows=False) if x["body"] is b and x["kind"] == "store"]
+            wpath = must_cross(b, [(w["bb"], w["idx"])], return_points(b), restamps) if restamps else [w["bb"]]
+            R.check(wpath is None, "length-formula", b.path, "a write to Message.%s is followed by a store to header.%s_length" % (fld, fld),
+                    "%s writes (or mutably borrows) the %s of a Message and can return without storing header.%s_length afterwards: the header keeps the "
+                    "old length" % (b.path.rsplit("::", 1)[-1], fld, fld), w.get("span"), "restamped", path=wpath if isinstance(wpath, list) and restamps else None)
+    R.floor("length-formula", n, 2, "writes to Message.query / Message.body after construction")
 
 
 def _unconv(e):
